@@ -72,7 +72,17 @@ let () =
     let l = list z c in
     match unescape l with
     | UOk r -> ps "ok"; plist (fun (isr, v) -> pb isr; pz v) r
-    | UPanic -> ps "panic")
+    | UPanic -> ps "panic");
+  (* escape <kind> <bytes>: kind 0 = LITERAL token (fix_literal), 1 = CLASS_CHAR token (unescape), 2 = raw unescape;
+     prints the recogniser's verdict for the kind, then ok+bytes or panic *)
+  reg "escape" (fun c ->
+    let k = int c in
+    let l = list z c in
+    let wf = match k with 0 -> is_literal_token l | 1 -> is_class_char l | _ -> is_literal_body l in
+    pb wf;
+    match (if k = 0 then fix_literal l else unescape_bytes l) with
+    | Some bs -> ps "ok"; plist pz bs
+    | None -> ps "panic")
 
 
 (* ---- parser tables, grammars, certificates, kept by id ---- *)
